@@ -49,7 +49,7 @@ def snapshot_fn(solver_obj):
 
 def run_lp(spec, opts, workdir, rng, inject=True, noise=True, second_side=None,
            time_limit=None, faults=None, clock=None, getters=('short', 'long', 'debug'),
-           text=None, argv=None, decoy_argv=None):
+           text=None, argv=None, decoy_argv=None, cbc_options=None):
     """One monitored execution of the real Solver.  Never raises."""
     from matchingproblems.solver import Solver
     import matchingproblems.solver.solver as solver_mod
@@ -68,6 +68,7 @@ def run_lp(spec, opts, workdir, rng, inject=True, noise=True, second_side=None,
     TAP.inject_rng = random.Random(rng.random()) if inject else None
     TAP.faults = faults
     TAP.time_limit = time_limit
+    TAP.force_options = cbc_options
     real_dt = solver_mod.datetime
     if clock is not None:
         TAP.clock = clock
